@@ -601,7 +601,7 @@ func (w *World) personaText(qrs []string) string {
 		}
 		return "no"
 	case 2:
-		return []string{"7", "18", "10", "-1", "3.5", "1,000", "٣"}[t.Pick("num", 7)]
+		return []string{"7", "18", "10", "-1", "3.5", "1,000", "٣", "1'500.25", "1 500,5", "1.500,25", "I paid 2'000 today"}[t.Pick("num", 11)]
 	case 3:
 		return []string{"2020-02-29", "29-02-2020", "02/29/2020", "31.12.19 23:59", "tomorrow", "10:30", "12am"}[t.Pick("date", 7)]
 	case 4:
